@@ -1050,6 +1050,13 @@ def matrix_like(cls, name, kw, rng, cell, fit_fmts, pool_fmts, fit_kw=None, seed
     X, X2 = count_dense(rng, n_rows, n_cols), count_dense(rng, n_rows, n_cols)
     if cell.get("data") == "mirror":
         X, X2 = mirror(X), mirror(X2)
+    if cell.get("data") == "lowrank":
+        # rank-deficient training data (every row a multiple of one of two base rows): a fitted scaling with a
+        # vanishing singular value, the direction transform must treat as dead on EVERY call
+        base = count_dense(rng, 2, n_cols) + 1.0
+        pick = rng.randint(0, 2, size=n_rows)
+        X = base[pick] * rng.randint(1, 4, size=(n_rows, 1))
+        X2 = base[pick[::-1]] * rng.randint(1, 4, size=(n_rows, 1))
     A, B, C = count_dense(rng, 5, n_cols), count_dense(rng, 5, n_cols), count_dense(rng, 3, n_cols)
     fk = fit_kw or (lambda: {})
     pool = [freeze((mat_fmt(A, pf(1)), {})), freeze((mat_fmt(B, pf(1)), {})), freeze((mat_fmt(A, pf(2)), {})),
@@ -1093,12 +1100,14 @@ CFC_FIT = ["csr", "csc", "coo", "dia", "bsr", "csr_unsorted", "csc_unsorted", "c
 def cells_cfc(seed):
     # big: 40-60 rows x 16-20 columns, n_components 2-3: randomized_svd's range finder does not span everything
     cells = with_big(cross(algorithm=["randomized", "arpack"], fmt=CFC_FIT), cross(algorithm=["randomized", "randomized", "arpack", "arpack"]), seed)
-    return rotate(cells, seed, use_ft=[False, True], data=["random", "mirror"])
+    return rotate(cells, seed, use_ft=[False, True], data=["random", "mirror", "lowrank"])
 
 
 def sc_cfc(rng, cell, fx):
     big = cell["size"] == "big"
     kw = {"n_components": int(rng.randint(2, 4)) if big else 2, "algorithm": cell["algorithm"], "random_state": int(rng.randint(1000))}
+    if cell.get("data") == "lowrank":
+        kw["n_components"] = 3                      # above the rank (2) of the training data, below n_features
     if big:
         kw["n_iter"] = cell["svd_iter"]            # (as in ot_sizes: no or one power iteration, the random start matters)
     return matrix_like(T.CountFeatureCompressionTransformer, "CountFeatureCompressionTransformer", kw, rng, cell, CFC_FIT,
